@@ -22,7 +22,10 @@ checker, their partial-operation sites are covered by `set_ext_cut_in_range`,
 of the Rust code are explored (catch_unwind + time limit), not proved.
 -/
 import TypedPathVerif.Lemmas.CombSim
+import TypedPathVerif.Lemmas.CombOps
 import TypedPathVerif.Props.C03
+import TypedPathVerif.Props.C13
+import TypedPathVerif.Generated.Partial
 
 namespace TP.C18
 
@@ -127,6 +130,80 @@ theorem windows_comb_interleave (b : Bytes) (steps : List Bool) :
           = .ok ((takeSteps (comps .windows b) steps).1, c') := by
   obtain ⟨c0, hn, c', h, _⟩ := windows_parser_total b steps
   exact ⟨c0, hn, c', by rw [h, (C03.dei_interleave .windows b steps).1]⟩
+
+/-! ### partial operations outside the parsers -/
+
+/-- **`Encoding::hash` never indexes out of range** (both encodings): the loop with `path[i]`,
+`&path[component_start..i]`, `&path[component_start..]` and `&path[prefix_len..]` written with
+checked indexing returns normally, and writes exactly the model's chunk sequence. -/
+theorem hash_index_in_range (e : Enc) (b : Bytes) :
+    Ops.hashChunksC e b = some (hashChunks e b) := Ops.hashChunksC_eq e b
+
+/-- **`normal_cnt -= 1` in `push_checked` never underflows** (both encodings), for every
+component list and every starting count. -/
+theorem checked_count_no_underflow (e : Enc) (cs : List Comp) (n : Nat) :
+    Ops.checkedScanC e n cs = some (checkedScan e n cs) := Ops.checkedScanC_eq e cs n
+
+/-- **`set_extension`: `end_file_stem - start` is in range and `truncate` cuts inside the buffer**,
+at a position followed by `.`, a separator, a `.` segment or nothing — never inside a name, so on
+a character boundary of every UTF-8 buffer (`String::truncate` does not panic). -/
+theorem set_ext_cut_in_range (e : Enc) (b x f : Bytes) (h : fileName e b = some f) :
+    ∃ cut, cut ≤ b.length ∧ (setExtension e b x).1 = b.take cut ++ (if x = [] then [] else DOT :: x) ∧
+      ((b.drop cut) = [] ∨ (b.drop cut).head? = some DOT ∨
+        ∃ t j, junk (e.new b).k t = true ∧ b.drop cut = untoks (t :: j)) := by
+  obtain ⟨pre, st, after, hb, _, hset, hafter⟩ := C13.set_ext_cut_boundary e b x f h
+  have htake : b.take (pre ++ st).length = pre ++ st := by rw [hb]; exact List.take_left' rfl
+  have hdrop : b.drop (pre ++ st).length = after := by rw [hb]; exact List.drop_left' rfl
+  refine ⟨(pre ++ st).length, ?_, ?_, ?_⟩
+  · rw [hb, List.length_append (as := pre ++ st)]; omega
+  · rw [hset, htake]
+  · rw [hdrop]; exact hafter
+
+/-! ### the table of partial-operation sites, regenerated from the source on every run
+
+`gen/partial.py` counts, per non-test source file, the sites of
+`[indexing, unwrap/expect, subtraction, truncate, while/loop, panicking macro, unsafe]`.
+`coveredSites` is the table those theorems were written against; each row says what covers it.
+A new, removed or moved site changes the generated table and breaks `partial_sites_covered`. -/
+
+def coveredSites : List (String × List Nat) := [
+  -- slices of take_until_byte / rtake_until_byte / take / bytes / byte, `len - input.len()`,
+  -- `len - 1`, the one_or_more loop and its `next.unwrap()`: Model/Comb/Core.lean, never faulting
+  -- by unix_parser_total / windows_parser_total
+  ("src/common/non_utf8/parser.rs", [9, 1, 2, 0, 1, 0, 0]),
+  -- the `loop` of iter_after: consumes one component of `iter` per iteration (structural
+  -- recursion in Model/Path.lean); unsafe: repr(transparent) casts (modelled, not verified; C19)
+  ("src/common/non_utf8/path.rs", [0, 0, 0, 0, 1, 0, 7]),
+  -- pop: truncate(parent length) (parent_is_prefix, C09); set_extension: set_ext_cut_in_range
+  ("src/common/non_utf8/pathbuf.rs", [0, 0, 1, 2, 0, 0, 1]),
+  ("src/common/utf8/path.rs", [0, 0, 0, 0, 1, 0, 8]),
+  -- String::truncate needs a character boundary: set_ext_cut_in_range + C14 (parent of a valid
+  -- buffer is valid); unsafe: from_utf8_unchecked / as_mut_vec, justified by C14.mutations_valid
+  ("src/common/utf8/pathbuf.rs", [0, 0, 1, 2, 0, 0, 2]),
+  -- hash loop: hash_index_in_range; normal_cnt: checked_count_no_underflow
+  ("src/unix/non_utf8.rs", [4, 0, 1, 0, 0, 0, 0]),
+  ("src/unix/utf8.rs", [0, 0, 0, 0, 0, 0, 2]),
+  -- `&input[..1]` ("preserve root dir") and move_back_to_next's loop: unix_parser_total
+  ("src/unix/non_utf8/components/parser.rs", [1, 0, 0, 0, 1, 0, 0]),
+  ("src/unix/utf8/components.rs", [0, 0, 0, 0, 0, 0, 3]),
+  ("src/unix/utf8/components/component.rs", [0, 0, 0, 0, 0, 0, 1]),
+  -- hash loop incl. `&path[prefix_len..]`: hash_index_in_range; normal_cnt:
+  -- checked_count_no_underflow; Vec::truncate (rules 2 and 3 of push) cannot panic
+  ("src/windows/non_utf8.rs", [7, 0, 1, 2, 0, 0, 0]),
+  ("src/windows/utf8.rs", [0, 0, 0, 0, 0, 0, 2]),
+  -- `.expect(..)` under `cfg!(windows)`: unreachable on this host (not covered)
+  ("src/windows/non_utf8/components/component.rs", [0, 1, 0, 0, 0, 0, 0]),
+  -- Parser::new's unwrap, the prefix-length slices of next_front / next_back, `input[0]`,
+  -- `&input[1..]`, `&input[..1]`, prefix_component's `input.len() - new_input.len()`,
+  -- `drive_letter[0]`, move_back_to_next's loop: windows_parser_total
+  ("src/windows/non_utf8/components/parser.rs", [12, 1, 1, 0, 1, 0, 0]),
+  ("src/windows/utf8/components.rs", [0, 0, 0, 0, 0, 0, 3]),
+  ("src/windows/utf8/components/component.rs", [0, 0, 0, 0, 0, 0, 1]),
+  ("src/windows/utf8/components/component/prefix.rs", [0, 0, 0, 0, 0, 0, 2])
+]
+
+/-- the source has exactly the partial-operation sites the theorems above were written for -/
+theorem partial_sites_covered : Generated.partialSites = coveredSites := rfl
 
 /-! ### non-vacuity: the machines do run, and a fault is expressible -/
 
